@@ -48,7 +48,7 @@ func VerifState(s *ServantProxy) VerifProxyState {
 		st.InvokeNum = atomic.LoadInt32(&em.invokeNum)
 		em.epList.Range(func(k, v interface{}) bool {
 			st.Adapters++
-			v.(*AdapterProxy).resp.Range(func(k, v interface{}) bool { st.Pending++; return true })
+			st.Pending += verifPending(v.(*AdapterProxy))
 			return true
 		})
 	}
